@@ -58,6 +58,8 @@ check_C15() {
 check_C19() {
   build_inpkg fixture_verif_test.go c19_resolution_verif_test.go
   inpkg_test inpkg TestVerifC19
+  build_proxy
+  wire_part wire resolve
 }
 
 # wire_part <name> <scenario> [vfwire flags...] : the real -race binary driven over loopback
